@@ -1,6 +1,7 @@
 import SimilarVerif.Lemmas.LcsMinimal
 import SimilarVerif.Lemmas.Compact
 import SimilarVerif.Lemmas.Capture
+import SimilarVerif.Lemmas.MyersOptimal
 import SimilarVerif.Model.Common
 /-!
 # C03 — Myers and LCS report a shortest edit script; ratio = 2·LCS/(N+M)
@@ -8,9 +9,9 @@ import SimilarVerif.Model.Common
 `Spec.lcsLen` is the textbook LCS recursion, `Spec.cost = deleted + inserted`.
 Status: the lower bound holds for every valid script of every algorithm; **LCS is minimal** (full,
 all inputs and sub-ranges, no deadline); the clean-up and `Replace` keep the numbers of deleted,
-inserted and equal items (C10), so minimal stays minimal through the capture pipeline. Myers'
-minimality needs the middle-snake theory (Lemmas/MyersTheory.lean, in progress) and is covered by the
-correspondence plus a brute-force LCS validator until then.
+inserted and equal items (C10), so minimal stays minimal through the capture pipeline. **Myers
+is minimal** (full: Lemmas/MyersTheory.lean + MyersOptimal.lean — the split point of every
+`find_middle_snake` lies on an optimal path, so the costs of the two halves add up to the optimum).
 -/
 namespace SimilarVerif.C03
 open SimilarVerif Spec
@@ -68,5 +69,20 @@ open SimilarVerif Spec
 
 /-- **LCS stays minimal after the capture pipeline's clean-up** -/
 theorem capture_lcs_minimal : type_of% @CaptureP.capture_lcs_minimal := @CaptureP.capture_lcs_minimal
+
+end SimilarVerif.C03
+
+namespace SimilarVerif.C03
+open SimilarVerif Spec
+
+/-- **Myers is minimal** (no deadline): the raw callback stream is valid, exact, costs exactly
+`N + M - 2·L`, and no valid script for the same ranges is cheaper -/
+theorem myers_minimal (E : Env) (os oe ns ne : Nat) (w : World) (r' : Rec) (w' : World)
+    (ho : os ≤ oe) (hn : ns ≤ ne) (hb : InBounds E os oe ns ne) (hc : w.clock = none)
+    (h : rawTrace .myers E os oe ns ne w = .ok (r', w')) :
+    ∃ ops, r'.trace = ops.map Call.op ++ [.finish] ∧ Walk (eqB E) os ns ops oe ne ∧ Exact os ns ops ∧
+      Spec.cost ops + 2 * lcsLen (eqB E) (oe-os) (ne-ns) os ns = (oe-os) + (ne-ns) ∧
+      ∀ ops', Walk (eqB E) os ns ops' oe ne → Spec.cost ops ≤ Spec.cost ops' :=
+  MyersT.myers_optimal E os oe ns ne w r' w' ho hn hb hc (by simpa [rawTrace, diffWith] using h)
 
 end SimilarVerif.C03
